@@ -689,6 +689,21 @@ theorem step_cached (db : DB) (op : Op) (h : Cached db) (ok : OpOK db.eager op) 
     · exact ⟨h, rfl⟩
   | reopen a b c => exact absurd ok (by simp [OpOK])
 
+theorem close_eager (db : DB) (h : Cached db) : (close db).eager = db.eager := by
+  unfold close
+  rw [if_neg (by simp [h.1])]
+  have hd : (if db.volatile = true then (if db.noSync = true then defrag db else db) else sync db).eager = db.eager := by
+    split
+    · split
+      · exact (defrag_cached db h).eager
+      · rfl
+    · exact (sync_cached db h).eager
+  generalize (if db.volatile = true then (if db.noSync = true then defrag db else db) else sync db) = d at hd
+  dsimp only
+  cases d.failed with
+  | some w => exact hd
+  | none => exact hd
+
 theorem memput_cachedC (db : DB) (k : Key) (v : Bytes) (f : Nat) (h : Cached db)
     (hf : hasFlag f (ncOf db.eager) = false) : Cached (memput db k (newRec v f)) := by
   obtain ⟨hi, hfa, _, _⟩ := memput_spec db k (newRec v f)
